@@ -508,6 +508,24 @@ def run(chk):
         chk.ok("C01.rej.target", tgt_ok[0], "a request-target containing any control character (00-1F, 7F) is refused before the URL is built")
     else:
         chk.violation("C01.rej.target", tgt_ok[0], "request-target pattern", f"missing code points {tgt_ok[2]}", "some control characters are still accepted in the request-target")
+    # ------------------------------------------------------------------ C01.rej.host
+    # what BaseRequest.url builds lazily from the Host header (URL.build(authority=...)) the parser validates eagerly: an invalid Host is the
+    # client's error (400), not a ValueError in whatever handler or middleware first touches request.url (500)
+    WR_ = "aiohttp/web_request.py"
+    lazy = [c for f in repo.cls(WR_, "BaseRequest").methods.values() for c in prog.calls_in(f.node) if norm.raw(c.func) == "URL.build" and any(k.arg == "authority" for k in c.keywords)]
+    eager = []
+    for c in prog.calls_in(pm.node):
+        if norm.raw(c.func) == "URL.build" and [k.arg for k in c.keywords] == ["authority"] and isinstance(c.keywords[0].value, ast.Name):
+            ds = norm.fn_defs(pm.node).defs.get(c.keywords[0].value.id, [])
+            if any(v is not None and "hdrs.HOST" in norm.raw(v) for _d, v in ds):
+                eager.append(c)
+    if not lazy:
+        chk.analysis_error("C01.rej.host: BaseRequest no longer builds its URL from the Host header with URL.build(authority=...)")
+    elif eager and any(any(rc in ("BadHttpMessage",) for _r, rc in K.raises_in(h)) for c in eager for _t, h in K.enclosing_try_handlers(c) if "ValueError" in PC.handler_types(h) or h.type is None):
+        chk.ok("C01.rej.host", eager[0], "the Host value is run through the same URL.build(authority=...) the request object uses later; its ValueError becomes BadHttpMessage (400)")
+    else:
+        chk.violation("C01.rej.host", pm, "Host header", "try: URL.build(authority=host) except ValueError: raise BadHttpMessage",
+                      "an invalid Host value (`a:b`, `a:99999999`, `[::1]x`) passes the parser and only fails as ValueError when request.url is first touched: the client gets 500 (or a middleware crashes) instead of the 400 RFC 9112 3.2 requires")
     # ------------------------------------------------------------------ C01.reqbody
     reqbody(chk, repo)
     # ------------------------------------------------------------------ C01.err400
